@@ -888,6 +888,9 @@ def call_builtin(it, f, args, kwargs, node):
                 return VUnknown(f, f)
         if isinstance(x, VNum):
             t = x.term
+            cv = t.const_value() if t is not None else None
+            if cv is not None:
+                return VConst(int(cv) if f == "int" else float(cv))
             if f == "int" and x.kind != "int":
                 at = t.single_atom() if t is not None else None
                 if not (at is not None and isinstance(at, T.App) and at.op in ("ceil", "floor")):
